@@ -1,19 +1,60 @@
 (* Evaluation of C12 correspondence cases: model vs implementation, and the
    certified checkers on the implementation's output.  Depends on the models
    only (not on the proofs). *)
-From Coupe Require Import Lib.Prelude Lib.Report Model.NumPart Model.Greedy Model.Kk.
+From Coupe Require Import Lib.Prelude Lib.SFloat Lib.Report Model.NumPart Model.Greedy Model.Kk Model.ArithW Model.GreedyW.
+From Coq Require Import Floats.SpecFloat.
 Open Scope Z_scope.
 
-(* c_alg: 0 = Greedy, 1 = KarmarkarKarp.  c_implf: the same call with the
-   weights converted to f64 (Greedy only; integer-valued data). *)
-Record case12 := mk12 { c_alg : N; c_ws : list Z; c_k : nat; c_p0 : list N;
-                        c_impl : impl_res; c_implf : option impl_res }.
+(* mk12: c_alg: 0 = Greedy, 1 = KarmarkarKarp; integer weights.  c_implf: the same call with the
+   weights converted to f64 (Greedy only; integer-valued data).
+   mk12f: Greedy on genuine binary64 weights (bit patterns): fractions, mixed magnitudes, sums that round. *)
+Inductive case12 :=
+| mk12 (c_alg : N) (c_ws : list Z) (c_k : nat) (c_p0 : list N) (c_impl : impl_res) (c_implf : option impl_res)
+| mk12f (c_wbits : list N) (c_k : nat) (c_p0 : list N) (c_impl : impl_res).
+
+Definition res_eqb (a b : res (list N)) : bool :=
+  match a, b with
+  | Ok p, Ok q => list_eqb N.eqb p q
+  | Err e, Err e' => match e, e' with
+                     | InputLenMismatch x y, InputLenMismatch x' y' => Nat.eqb x x' && Nat.eqb y y'
+                     | _, _ => false end
+  | Panic _, Panic _ => true
+  | OutOfFuel, OutOfFuel => true
+  | _, _ => false
+  end.
+
+(* binary64 weights inside the contract: finite, not negative (and not -0.0, see docs/C12.md) *)
+Definition f64_weight_ok (x : spec_float) : bool :=
+  match x with
+  | S754_zero s => negb s
+  | S754_finite s _ _ => negb s
+  | _ => false
+  end.
+
+Definition eval12f (wbits : list N) (k : nat) (p0 : list N) (impl : impl_res) : verdict :=
+  let ws := map (fun b => f64_of_bits b) wbits in
+  let r := greedyW F64arith ws k p0 in
+  let len_ok := Nat.eqb (length ws) (length p0) in
+  let in_contract := len_ok && forallb f64_weight_ok ws && Nat.leb 1 k in
+  let prop :=
+    if in_contract then
+      match impl with
+      | IOk p => check_greedyW F64arith ws k p      (* LPT in the rounded arithmetic of the code *)
+      | _ => false
+      end
+    else if negb len_ok then
+      match impl with
+      | IErr 1 a b => (a =? N.of_nat (length p0))%N && (b =? N.of_nat (length ws))%N
+      | _ => false
+      end
+    else true in
+  let cls := match impl with IOk _ => 9 | IErr 1 _ _ => 1 | IErr _ _ _ => 2 | IPanic => 3 | IHang => 4 end%N in
+  {| corr_ok := res_matches r impl; prop_ok := prop; cls := cls |}.
 
 Definition sorted_loads (ws : list Z) (p : list N) (k : nat) : list Z := sortZ_desc (loads ws p k).
 
-Definition eval12 (c : case12) : verdict :=
-  let ws := c_ws c in let k := c_k c in let p0 := c_p0 c in
-  let greedy_p := (c_alg c =? 0)%N in
+Definition eval12i (c_alg : N) (ws : list Z) (k : nat) (p0 : list N) (c_impl : impl_res) (c_implf : option impl_res) : verdict :=
+  let greedy_p := (c_alg =? 0)%N in
   let r := if greedy_p then greedy ws k p0 else kk_partition sort_stable_desc ws k p0 in
   (* k-way KarmarkarKarp: the tie order of sort_unstable is not specified, only the loads are compared *)
   let loads_only := negb greedy_p && Nat.leb 3 k in
@@ -21,35 +62,43 @@ Definition eval12 (c : case12) : verdict :=
      come out in another order than in the executed model and may steer later pairings: nothing but the
      property itself is fixed, so only the checker judges the output *)
   let wide := loads_only && Nat.leb 21 k in
-  let exact := res_matches r (c_impl c) in
+  let exact := res_matches r c_impl in
   let corr1 :=
     if loads_only then
-      match r, c_impl c with
+      match r, c_impl with
       | Ok p, IOk p' =>
         Nat.eqb (length p) (length p')
         && (wide || list_Zeqb (sorted_loads ws p k) (sorted_loads ws p' k))
       | _, _ => exact
       end
     else exact in
-  let corr2 := match c_implf c with None => true | Some i => res_matches r i end in
+  let corr2 := match c_implf with None => true | Some i => res_matches r i end in
+  (* the generic model at the integer arithmetic is the integer model *)
+  let corr3 := if greedy_p then res_eqb (greedyW Zarith ws k p0) r else true in
   let len_ok := Nat.eqb (length ws) (length p0) in
   let in_contract := len_ok && forallb (fun w => 0 <=? w) ws && Nat.leb 1 k in
   let prop :=
     if in_contract then
-      match c_impl c with
+      match c_impl with
       | IOk p => if greedy_p then check_greedy ws k p else check_kk ws k p
       | _ => false                        (* error, panic or hang inside the contract *)
       end
     else if negb len_ok then
       (* malformed stream (C20 clause): the mismatch is reported *)
-      match c_impl c with
+      match c_impl with
       | IErr 1 a b => (a =? N.of_nat (length p0))%N && (b =? N.of_nat (length ws))%N
       | _ => false
       end
     else true in                          (* negative weights / zero parts: outside the contract *)
-  let cls := match c_impl c with
+  let cls := match c_impl with
              | IOk _ => if wide then (if exact then 7 else 8) else if loads_only then (if exact then 5 else 6) else 0
              | IErr 1 _ _ => 1 | IErr _ _ _ => 2 | IPanic => 3 | IHang => 4 end%N in
-  {| corr_ok := corr1 && corr2; prop_ok := prop; cls := cls |}.
+  {| corr_ok := corr1 && corr2 && corr3; prop_ok := prop; cls := cls |}.
+
+Definition eval12 (c : case12) : verdict :=
+  match c with
+  | mk12 a ws k p0 i f => eval12i a ws k p0 i f
+  | mk12f wb k p0 i => eval12f wb k p0 i
+  end.
 
 Definition run12 (cs : list case12) := report (map eval12 cs).
